@@ -50,6 +50,8 @@ pub struct SynthSource {
     /// Only the read-accounting consumer clears the log after every call; for everyone else the
     /// sizes are not recorded (an ever-growing vector would be charged to the memory bound).
     pub log_sizes: bool,
+    /// marathon under the interpreter: reads are stamped with their offset instead of filled
+    pub stamp_only: bool,
 }
 
 #[derive(Default)]
@@ -77,6 +79,7 @@ impl SynthSource {
             ended: false,
             op_log: Default::default(),
             log_sizes: false,
+            stamp_only: c.marathon,
         }
     }
 }
@@ -118,8 +121,13 @@ impl Read for SynthSource {
             ReadSizes::Random(m) => 1 + self.rng.below(m),
         };
         let n = (buf.len().min(want) as u64).min(left) as usize;
-        // page-wise fill (vectorises)
+        // page-wise fill (vectorises); under the interpreter only a stamp (the reader hands out
+        // zeroed space)
         let mut done = 0usize;
+        if cfg!(miri) && n >= 8 && self.stamp_only {
+            buf[..8].copy_from_slice(&self.pos.to_le_bytes());
+            done = n;
+        }
         while done < n {
             let at = self.pos + done as u64;
             let page_left = (4096 - (at & 4095)) as usize;
@@ -160,7 +168,13 @@ pub struct RawCase {
 }
 
 pub fn bound(chunk: usize, item: usize) -> usize {
-    16 * chunk + 32 * item + (64 << 10)
+    // (saturating: on a 32-bit target the marathon's chunk sizes would overflow, and the bound is
+    // not used there)
+    chunk
+        .saturating_mul(16)
+        .saturating_add(item.saturating_mul(32))
+        .saturating_add(64 << 10)
+        .min(isize::MAX as usize)
 }
 
 pub struct RawStream {
@@ -467,6 +481,26 @@ impl Prop for RawStream {
                 fail_at_end: rng.chance(1, 3),
             };
         }
+        if self.marathon && cfg!(miri) {
+            // under the interpreter (meant for the 32-bit target, where position() wraps after
+            // 2^32 bytes): refills of 128 KiB, everything consumed each time; the source only stamps each read instead of filling
+            // it, and only positions are checked
+            // (128 KiB: the interpreter's cost per byte grows with the size of the block it touches)
+            let chunk = 128usize << 10;
+            return RawCase {
+                marathon: true,
+                chunk: Some(chunk),
+                sizes: ReadSizes::Full,
+                interrupts: false,
+                seed: rng.next_u64(),
+                total: (1u64 << 32) + (130 << 20) + rng.below(1 << 20) as u64,
+                max_rec: chunk,
+                lookahead: 1,
+                pattern: rng.below(3) as u8,
+                marks: true,
+                fail_at_end: false,
+            };
+        }
         if self.marathon {
             let chunk = *rng.pick(&[1usize << 20, 4 << 20, 16 << 20, (1 << 20) + 4099]);
             return RawCase {
@@ -619,10 +653,13 @@ impl Prop for RawStream {
                 if have == 0 {
                     break;
                 }
-                let take = rec.min(have);
+                // (under the interpreter: consume everything, so that realigns have nothing to move)
+                let take = if marathon && cfg!(miri) { have } else { rec.min(have) };
                 // content of the record
                 let w = rd.buf();
-                let bad = if marathon {
+                let bad = if marathon && cfg!(miri) {
+                    None
+                } else if marathon {
                     let n = take.min(16);
                     (0..n).find(|&j| w[j] != stream_byte(consumed + j as u64)).or_else(|| {
                         (take - n..take).find(|&j| w[j] != stream_byte(consumed + j as u64))
@@ -642,7 +679,8 @@ impl Prop for RawStream {
                     });
                     break;
                 }
-                if rd.position() as u64 != consumed {
+                // (truncating: position() wraps at usize::MAX, which a 32-bit target reaches)
+                if rd.position() != consumed as usize {
                     violation = Some(Violation {
                         check: self.name("position"),
                         signature: "position() differs from the number of bytes consumed".into(),
@@ -651,7 +689,7 @@ impl Prop for RawStream {
                     break;
                 }
                 if let Some(m) = mark_at {
-                    if rd.mark() as u64 != m {
+                    if rd.mark() != m as usize {
                         violation = Some(Violation {
                             check: self.name("mark"),
                             signature: "mark() differs from the position at which it was set".into(),
